@@ -15,8 +15,11 @@ import (
 	"io"
 	"log"
 	"os"
+	"runtime/debug"
 	"strings"
 	"time"
+
+	"go.step.sm/crypto/jose"
 
 	"github.com/smallstep/certificates/authority"
 	"github.com/smallstep/certificates/authority/config"
@@ -42,6 +45,9 @@ type runner struct {
 func (w *World) present(op, token string) (res string, chosen string) {
 	defer func() {
 		if r := recover(); r != nil {
+			if os.Getenv("C01_DEBUG") != "" {
+				fmt.Fprintf(os.Stderr, "panic in Authorize(%s): %v\n%s\n", op, r, debug.Stack())
+			}
 			res, chosen = "crash", ""
 		}
 	}()
@@ -50,17 +56,24 @@ func (w *World) present(op, token string) (res string, chosen string) {
 	if err != nil {
 		return "reject", ""
 	}
+	// which provisioner answered: the real lookup, and (where the sign options carry it) the provisioner itself
+	if tok, perr := jose.ParseSigned(token); perr == nil {
+		var cl jose.Claims
+		if tok.UnsafeClaimsWithoutVerification(&cl) == nil {
+			if p, lerr := w.ca.Auth.LoadProvisionerByToken(tok, &cl); lerr == nil {
+				chosen = p.GetName()
+			}
+		}
+	}
 	for _, o := range opts {
 		if p, ok := o.(provisioner.Interface); ok {
-			chosen = p.GetName()
+			if p.GetName() != chosen {
+				return "ok-inconsistent:" + c.X(p.GetName()) + ":" + c.X(chosen), chosen
+			}
 			break
 		}
 	}
-	switch op {
-	case "sign", "sshsign", "sshrekey":
-		return "ok:" + c.X(chosen), chosen
-	}
-	return "ok", chosen
+	return "ok:" + c.X(chosen), chosen
 }
 
 func (r *runner) emit(k *Case) {
@@ -93,6 +106,9 @@ func (r *runner) emit(k *Case) {
 		exp := v
 		if strings.HasPrefix(v, "accept-") {
 			exp = "genuine"
+		}
+		if strings.HasPrefix(v, "crash") {
+			exp = "rejected"
 		}
 		r.out.Case(line, v+"\t"+exp)
 	}
